@@ -1,9 +1,11 @@
 package scen
 
 import (
+	"context"
 	"fmt"
 	"sort"
 	"strings"
+	"sync/atomic"
 	"time"
 
 	"github.com/vektah/gqlparser/v2"
@@ -101,6 +103,13 @@ func scenMUT(s *sched.Sim, cfg Config, res *Result) {
 		fired   bool
 		url     string
 		mutCall bool
+		// a second fault in the same request (0: none)
+		ordinal2 int
+		kind2    string
+		fired2   bool
+		// mutation calls that never reached their service because of an injected fault
+		notSent map[string]bool
+		gaveUp  bool
 	}
 	var target *tgt
 	env.net.FaultFor = func(m *simnet.Message) *simnet.Fault {
@@ -109,15 +118,33 @@ func scenMUT(s *sched.Sim, cfg Config, res *Result) {
 			return nil
 		}
 		t.count++
-		if t.count != t.ordinal {
+		kind := ""
+		switch {
+		case t.count == t.ordinal:
+			kind = t.kind
+			t.fired = true
+			t.url = m.URL
+			t.mutCall = strings.Contains(string(m.Body), "mutation")
+		case t.ordinal2 > 0 && t.count == t.ordinal2:
+			kind = t.kind2
+			t.fired2 = true
+		default:
 			return nil
 		}
-		t.fired = true
-		t.url = m.URL
-		t.mutCall = strings.Contains(string(m.Body), "mutation")
-		switch t.kind {
+		if t.notSent == nil {
+			t.notSent = map[string]bool{}
+		}
+		if (kind == "ErrBefore" || kind == "client-gives-up") && strings.Contains(string(m.Body), "mutation") {
+			t.notSent[m.URL] = true
+		}
+		switch kind {
+		case "client-gives-up":
+			// the client disconnects: the request context ends, calls in flight or still to come fail
+			t.gaveUp = true
+			env.clientGivesUp(strings.SplitN(m.Tag, "#", 2)[0])
+			return &simnet.Fault{Kind: "ErrBefore", Err: context.Canceled}
 		case "ErrBefore", "ErrAfter":
-			return &simnet.Fault{Kind: t.kind}
+			return &simnet.Fault{Kind: kind}
 		case "Status":
 			return &simnet.Fault{Kind: "Status", Status: 500, Body: []byte("oops")}
 		case "not-json":
@@ -168,7 +195,9 @@ func scenMUT(s *sched.Sim, cfg Config, res *Result) {
 		for svc := 0; svc < w.K; svc++ {
 			exp := byOwner[svc]
 			got := perSvcMut[svc]
-			faultOnPath := t != nil && t.fired && t.url == w.URLs[svc] && t.mutCall && t.kind == "ErrBefore"
+			// the mutation call to this owner was stopped by an injected fault before it got there,
+			// or the client went away before it was made
+			faultOnPath := t != nil && (t.notSent[w.URLs[svc]] || t.gaveUp)
 			switch {
 			case len(exp) == 0 && len(got) > 0:
 				res.Violate(prop+"/mutation-at-wrong-service", "service %d owns none of the selected root fields but received mutation request(s) %v\nop: %s", svc, got, op.Text)
@@ -205,6 +234,25 @@ func scenMUT(s *sched.Sim, cfg Config, res *Result) {
 		if other.Kind == ast.Query {
 			res.Probe("mut.batched-with-query")
 		}
+		// 2b. two clients at once: the mutation next to another operation (another mutation where
+		// the world has one), each must reach its owners exactly once
+		{
+			var n atomic.Int32
+			rival := gql.GenOp(s.T, w, w.Union, ast.Mutation, of, 3, 8)
+			s.Go("rival", func() {
+				env.post("mr", []clientReq{reqOf(rival)}, false)
+				n.Add(1)
+			})
+			s.Go("mine", func() {
+				env.post("m3", []clientReq{reqOf(op)}, false)
+				n.Add(1)
+			})
+			for n.Load() < 2 {
+				s.Park("wait-overlap")
+			}
+			check("m3#", nil, "next to another client's mutation")
+			res.Probe("mut.two-clients-at-once")
+		}
 		// 3. single faults at every call site
 		sites := nSites
 		if sites > 5 {
@@ -228,6 +276,31 @@ func scenMUT(s *sched.Sim, cfg Config, res *Result) {
 				}
 				check(tag+"#", t, "fault "+k)
 			}
+		}
+		// 4. the client goes away during call k; and pairs of faults in one request
+		all := []string{"ErrBefore", "ErrAfter", "Status", "not-json", "element-errors", "client-gives-up"}
+		for i := 0; i < 4 && sites > 0; i++ {
+			cases++
+			tag := fmt.Sprintf("g%d", cases)
+			t := &tgt{prefix: tag + "#", ordinal: 1 + s.Draw(sites), kind: "client-gives-up"}
+			if i >= 2 {
+				t.kind = all[s.Draw(len(all))]
+				t.ordinal2, t.kind2 = 1+s.Draw(sites), all[s.Draw(len(all))]
+				if t.ordinal2 == t.ordinal {
+					t.ordinal2 = 0
+				}
+			}
+			target = t
+			env.post(tag, []clientReq{reqOf(op)}, false)
+			target = nil
+			if t.fired {
+				res.Fault(t.kind)
+			}
+			if t.fired2 {
+				res.Fault(t.kind2)
+				res.Probe("mut.two-faults-in-one-request")
+			}
+			check(tag+"#", t, fmt.Sprintf("fault %s at call %d, %s at call %d", t.kind, t.ordinal, t.kind2, t.ordinal2))
 		}
 	})
 	end := s.Run(func() bool { return done && len(s.Alive()) == 0 }, 800000, 10*time.Second)
